@@ -333,6 +333,21 @@ func hintName(c *ssa.CallCommon) string {
 		return f.Name()
 	}
 	if c.IsInvoke() {
+		// interface value loaded from a struct field (l.transport.sendFrame(...)): refer to it by the field name,
+		// the SSA register name is not stable under code changes
+		if u, ok := c.Value.(*ssa.UnOp); ok {
+			if g, ok := u.X.(*ssa.Global); ok {
+				// interface value loaded from a package-level variable (table.FibStrategyTable.SetStrategyEnc(...))
+				return g.Name() + "." + c.Method.Name()
+			}
+			if fa, ok := u.X.(*ssa.FieldAddr); ok {
+				if pt, ok := fa.X.Type().Underlying().(*types.Pointer); ok {
+					if stt, ok := pt.Elem().Underlying().(*types.Struct); ok {
+						return stt.Field(fa.Field).Name() + "." + c.Method.Name()
+					}
+				}
+			}
+		}
 		return c.Value.Name() + "." + c.Method.Name()
 	}
 	if p, ok := c.Value.(*ssa.Parameter); ok {
@@ -369,7 +384,27 @@ func (fr *Frame) applyHints(c *ssa.CallCommon, pos token.Pos, st *State, instr *
 		}
 		env := fr.baseEnv(st)
 		blk := instr.Block()
-		env.lookup = func(name string) (TV, bool) { return fr.resolveNameAt(name, blk, st) }
+		env.lookup = func(name string) (TV, bool) {
+			// rangeindex<k> inside the body of range loop k (or of a loop nested in it): the header phi, i.e. the index
+			// of the last element processed BEFORE the current iteration (current element = rangeindex<k>+1)
+			if strings.HasPrefix(name, "rangeindex") && len(name) > len("rangeindex") {
+				if k, err := strconv.Atoi(name[len("rangeindex"):]); err == nil {
+					for hb, ord := range fr.loopOrd {
+						if ord != k || !(hb == blk || hb.Dominates(blk)) {
+							continue
+						}
+						for _, p := range headerPhis(hb) {
+							if p.Comment == "rangeindex" {
+								if v, ok := fr.vals[p]; ok {
+									return TV{v, p.Type()}, true
+								}
+							}
+						}
+					}
+				}
+			}
+			return fr.resolveNameAt(name, blk, st)
+		}
 		for _, ln := range h.Uses {
 			if strings.Contains(ln, "(") {
 				st.reach = vc.define("r", "Bool", and(st.reach, fr.applyLemma(env, ln, h.C)))
@@ -498,6 +533,9 @@ func (fr *Frame) assumeBelowAlloc(st *State, t types.Type, v Val) {
 			vc.assert(lt(ts[i], vc.allocOf(st)))
 		}
 		i++
+	}
+	if f := vc.typedRefFact(st, t, v); f != "true" {
+		vc.assert(f)
 	}
 }
 
@@ -689,7 +727,9 @@ func (fr *Frame) applyContract(callee *ssa.Function, ct *Contract, args []Val, a
 	pre := st.clone()
 	// effects
 	mods := fr.evalModifies(env, ct)
+	fr.ghostSet, fr.ghostKnown = vc.eng.ghostMods(callee)
 	fr.applyMods(st, pre, mods, pos)
+	fr.ghostSet, fr.ghostKnown = nil, false
 	// H4 patch: `option no-alloc` on a trusted contract: the callee allocates no object (part of what is trusted), so the
 	// allocation pointer does not move and `forall(func(x *T) ...)` facts of the caller survive the call.
 	if ct.Trusted && ct.Options["no-alloc"] {
@@ -742,7 +782,7 @@ func (fr *Frame) applyMods(st, pre *State, mods []modLoc, pos token.Pos) {
 		// frame: the caller must itself be allowed to modify what the callee modifies
 		// H4 patch: ghost globals (ghostXxx variables of a zz_verif file, e.g. the clock-reading counter) are not subject to
 		// the frame check: ghost state may advance in any function without every contract having to list it.
-		isGhostGlobal := strings.HasPrefix(m.root, "G|") && strings.Contains(m.root, ".ghost")
+		isGhostGlobal := vc.eng.isGhostRoot(m.root)
 		if fr.top && fr.contract != nil && vc.dry == 0 && !vc.noFrame && !isGhostGlobal {
 			if m.whole {
 				ok := false
@@ -782,9 +822,14 @@ func (fr *Frame) applyMods(st, pre *State, mods []modLoc, pos token.Pos) {
 			}
 		}
 	}
-	// ghost globals are outside the frame discipline: every call applied through a contract may have changed them
+	// ghost globals are outside the frame discipline: a call may have changed those that its target can reach through
+	// some contract (static analysis ghostMods; all of them if the target is unknown)
 	for _, g := range vc.eng.ghostGlobals() {
-		for _, h := range vc.heapsUnder(modLoc{root: "G|" + g.Pkg.Pkg.Path() + "." + g.Name(), whole: true}) {
+		root := "G|" + g.Pkg.Pkg.Path() + "." + g.Name()
+		if fr.ghostKnown && !fr.ghostSet[root] {
+			continue
+		}
+		for _, h := range vc.heapsUnder(modLoc{root: root, whole: true}) {
 			x := mi[h]
 			if x == nil {
 				x = &modInfo{}
@@ -833,7 +878,7 @@ func (fr *Frame) execInvoke(c *ssa.CallCommon, pos token.Pos, st *State) Val {
 	}
 	// 2. contract on the interface method itself (preferred over the default closed-world split)
 	ikey := "(" + types.TypeString(types.Unalias(c.Value.Type()), nil) + ")." + c.Method.Name()
-	if ct, ok := vc.eng.Contracts[ikey]; ok && !dynFromContract {
+	if ct := vc.eng.lookupContract(ikey); ct != nil && !dynFromContract {
 		if ct.Pure && c.Signature().Results().Len() == 1 {
 			return fr.applyPure(ct, ikey, c.Signature(), recv, args, argTypes, pos, st, nil)
 		}
@@ -962,7 +1007,15 @@ func (fr *Frame) applySigContract(ct *Contract, c *ssa.CallCommon, recv Val, arg
 	}
 	pre := st.clone()
 	mods := fr.evalModifies(env, ct)
+	if c.IsInvoke() {
+		fr.ghostSet, fr.ghostKnown = vc.eng.ghostModsInvoke(c)
+		if fr.ghostKnown {
+			// the contract being applied (possibly a `call` sub-contract of the enclosing function) counts too
+			vc.eng.contractGhostMods(ct, fr.ghostSet)
+		}
+	}
 	fr.applyMods(st, pre, mods, pos)
+	fr.ghostSet, fr.ghostKnown = nil, false
 	// H4 patch (allocset.go): interface call: what the implementations may allocate
 	if c.IsInvoke() {
 		if set, known := vc.eng.allocSetInvoke(c); known {
@@ -1321,4 +1374,17 @@ func (fr *Frame) applyPure(ct *Contract, key string, sig *types.Signature, recv 
 	}
 	st.reach = vc.define("r", "Bool", and(append([]string{st.reach}, facts...)...))
 	return res
+}
+
+// isGhostRoot: the heap root names a ghost global (a ghost*/Ghost* variable declared in a contract file).
+func (e *Engine) isGhostRoot(root string) bool {
+	if !strings.HasPrefix(root, "G|") {
+		return false
+	}
+	for _, g := range e.ghostGlobals() {
+		if root == "G|"+g.Pkg.Pkg.Path()+"."+g.Name() {
+			return true
+		}
+	}
+	return false
 }
